@@ -72,7 +72,19 @@ func init() {
 			case 3:
 				do("mrgSp", join(corrupt(spids(spl))), s(spl[0].h))
 			case 4:
-				do("nN", join(corrupt(ids(l))), s(int64(rng.Intn(2))), s(int64(rng.Intn(2))))
+				nl := corrupt(ids(l))
+				hl, vl := int64(rng.Intn(2)), int64(rng.Intn(2))
+				if rng.Intn(6) == 0 { // negative layer counts are an error whatever the list is — also for the empty list
+					if rng.Intn(2) == 0 {
+						hl = -1 - int64(rng.Intn(2))
+					} else {
+						vl = -1 - int64(rng.Intn(2))
+					}
+					if rng.Intn(2) == 0 {
+						nl = nil
+					}
+				}
+				do("nN", join(nl), s(hl), s(vl))
 			case 5:
 				a := corrupt(ids(l[:1]))
 				b := corrupt(ids(l[:1]))
